@@ -27,6 +27,16 @@ CHECKS = {
             "Breadth-first search over histories of the full request alphabet (a well-formed instance of every code 1..=44 and feature-setting variants x NEED_REPLY x scripted handler success/failure, ~430 operations) against the real backend request server driven by a raw peer with the independent codec. After every request: bytes left unread = 0, handler invoked exactly when prescribed, and the bytes written equal the model's prescription (one reply with same code/REPLY/version 1/size=payload, one u64 ack that is zero iff the handler succeeded, or nothing). States are deduplicated on the negotiation state the server's behaviour can depend on; the search runs until no new state appears (closure, reached at depth 3-4) and is then repeated without deduplication to a smaller depth as a guard against a too-coarse key.",
             "Trusted: the reference model's weak readings documented in DESIGN 4/C04; the dedup key is model state only (no accessor hook into the server), guarded by the no-dedup rerun. 'Random beyond the bound' is not claimed.",
             "DESIGN.md 4/C04"),
+    "C06": ("model_checking", "lattice",
+            "deviation-bounded exhaustive enumeration (0, 1, 2 mutations of the correct reply) against the real endpoints with a scripted raw peer, acceptance predicate evaluated on the bytes",
+            "For each reply-bearing and acknowledged frontend operation, the 5 proxy calls in ack mode and the 4 reply-awaiting GPU calls: the correct reply, every single mutation and every pair of mutations on different dimensions ({other/invalid code, each flag bit, version, size field, body truncation/extension, each body field over a lattice, 0..=3 descriptors}) is pre-queued by a raw peer that closes when the endpoint keeps waiting. If the call returns Ok(v), the bytes must satisfy the statement's acceptance predicate and decode to v; no panic, no indefinite wait. The frontend's request server is fed codes 0..=16 and outliers x flag words x bodies x size deltas x 0..=3 descriptors; the application handler may be invoked only for well-formed requests with exactly the prescribed descriptors.",
+            "Trusted: the acceptance predicate (REPLY flag, same code, valid body, descriptors exactly when defined) written from the statement - the crate may reject more; more than two simultaneous deviations and random byte strings are outside the bound.",
+            "DESIGN.md 4/C06"),
+    "C07": ("model_checking", "xstate",
+            "exhaustive enumeration of all 2^11 gating-bit subsets on both endpoints plus explicit-state BFS to closure over negotiation histories with a reference set-of-bits model",
+            "All 2048 subsets of the gating protocol bits are acknowledged through the real negotiation API and every gated operation is attempted on the frontend endpoint (must be refused with nothing written unless its bit is acknowledged) and every gated request on the backend server (error and empty handler log unless acknowledged; all subsets at thorough). Orders are covered by a BFS to closure (60 states) over {GET_FEATURES answers, SET_FEATURES, GET/SET_PROTOCOL_FEATURES with 0/each bit/all/all-minus-one, each gated operation} on the frontend endpoint; the server-side histories are C04's BFS whose oracle includes the handler-call count. Proxy flags (8 x 5) and the REPLY_ACK offer for 5 device feature sets are enumerated completely.",
+            "Trusted: 'acknowledged' = what the frontend sent on this connection; the LOG_SHMFD gate is read as 'no descriptor-carrying SET_LOG_BASE'. postcopy/xen builds are not covered.",
+            "DESIGN.md 4/C07"),
     "C08": ("fault_enumeration", "lattice",
             "exhaustive enumeration of stream segmentations (2-/3-splits, byte-by-byte), truncation offsets and short-write/EAGAIN patterns on the real endpoints via libc interposition",
             "For every message type of every receiver (backend request server, frontend reply paths, frontend request server, Backend/GPU proxy ack paths) every 2-split position (all positions for short messages, boundary neighbourhoods + stride for long ones), byte-by-byte delivery and 3-splits are delivered by a raw peer that writes the next segment only when the receiver starts waiting; every cut offset followed by close; for every sender every single short-write position, pairs and EAGAIN/EINTR patterns injected at sendmsg. Oracle: same handler log, reply bytes and result as unsplit delivery; bytes exactly once and in order with descriptors only at offset 0; truncation = error, clean Disconnected only at offset 0, nothing dispatched, no indefinite wait.",
